@@ -474,10 +474,12 @@ class SrcEdit:
 
             elif del_end_col == len(lines[del_end_ln]):
                 new_del_end_ln = min(bound_end_ln, del_end_ln + postspace + 1)  # account for not ending on newline
-                del_end_ln = (frag.ln - 1
-                              if (frag := next_frag(lines, del_end_ln, del_end_col, new_del_end_ln, 0, True, True)) else
-                              new_del_end_ln - 1)
-                del_end_col = len(lines[del_end_ln])
+
+                if new_del_end_ln > del_end_ln:  # if not then we are at the end of the bound (end of source without trailing newline) and there is nothing following to delete, going on would move the end of the delete location BEFORE its start
+                    del_end_ln = (frag.ln - 1
+                                  if (frag := next_frag(lines, del_end_ln, del_end_col, new_del_end_ln, 0, True, True)) else
+                                  new_del_end_ln - 1)
+                    del_end_col = len(lines[del_end_ln])
 
         del_pre_post_space = (min(o_prespace, del_loc.ln - del_ln),
                               min(o_postspace, del_end_ln - del_loc.end_ln))  # how many deleted empty leading and trailing lines (minimized to original requested value because may have been increased to pep8space)
